@@ -24,3 +24,18 @@ def yPair (Ih It : K) : K := Ih - It
 def yHalf (IF IB : K) : K := (IB - IF) / 2
 
 end DtsVerif.ObsSpec
+
+namespace DtsVerif.ObsSpec
+variable {K : Type} [Field K]
+
+/-- moving fixed parameters to the observation: `(coefficient, value)` pairs -/
+def redY (y : K) (terms : List (K × K)) : K := y - (terms.map fun t => t.1 * t.2).sum
+/-- … and to its variance: `(coefficient, variance)` pairs; the weight is the inverse of the inflated variance -/
+def redW (w : K) (terms : List (K × K)) : K := 1 / (1 / w + (terms.map fun t => t.1 ^ 2 * t.2).sum)
+
+/-- `redW` is the inverse of "own variance + Σ coefficient² · variance of the fixed parameter" (what `Calib.reduceObs` adds) -/
+theorem redW_eq_inv_inflated (v : K) (terms : List (K × K)) (_hv : v ≠ 0) :
+    redW (1 / v) terms = 1 / (v + (terms.map fun t => t.1 ^ 2 * t.2).sum) := by
+  unfold redW; rw [one_div_one_div]
+
+end DtsVerif.ObsSpec
